@@ -145,9 +145,35 @@ pub fn run(ctx: &Ctx) -> Report {
                     }
                     let be = RBackend::ALL[ci % 8];
                     let img = imgs[if ci % 5 < 3 { 0 } else { 1 + ci % 2 }].clone();
-                    readhist::check("C12", &RCase { cfg: RCfg { e, kind, be }, image: img, ops }, rep, false);
+                    readhist::check("C12", &RCase { cfg: RCfg { e, kind, be }, image: img.clone(), ops }, rep, false);
                     if len > 0 {
                         rep.case(&(e, kind, "read", len, off));
+                    }
+                    // the same byte read when it ends in the last word of a strict stream (the slice lies
+                    // entirely within the data: it must be transferred, not refused)
+                    if len > 0 && (ctx.tier == Tier::Thorough || (off + len + ci) % 2 == 0) {
+                        let need = off + 8 * len;
+                        let mut tight = img[..need.div_ceil(w) * wb].to_vec();
+                        let sbe = RBackend::STRICT[ci % RBackend::STRICT.len()];
+                        let mut tops: Vec<ROp> = vec![];
+                        if off > 0 {
+                            if ci % 2 == 0 {
+                                tops.push(ROp::Skip(off));
+                            } else {
+                                tops.push(ROp::Read(off.min(64)));
+                                if off > 64 {
+                                    tops.push(ROp::Skip(off - 64));
+                                }
+                            }
+                        }
+                        tops.push(ROp::IoRead(len));
+                        tops.push(ROp::Pos);
+                        if matches!(sbe, RBackend::AdCursor | RBackend::AdBufReader) && wb > 1 && ci % 3 == 0 {
+                            // a partial trailing word after the last whole one changes nothing
+                            tight.push(0x77);
+                        }
+                        readhist::check("C12", &RCase { cfg: RCfg { e, kind, be: sbe }, image: tight, ops: tops }, rep, false);
+                        rep.count("byte_reads_ending_in_the_last_word_of_a_strict_stream", 1);
                     }
                     ci += 1;
                 }
